@@ -280,6 +280,9 @@ theorem rcfg_wf : Cuke.SchedSeq.WF rcfg := by
   · intro ft hft ft' hft' x hx hx'
     simp only [rcfg, mem_singleton] at hft hft'
     rw [hft, hft']
+  · intro ft hft ft' hft' _
+    simp only [rcfg, mem_singleton] at hft hft'
+    rw [hft, hft']
 
 /-- non-vacuity: the example run with a retried attempt is clean in BOTH layers … -/
 example : Cuke.SchedSeq.NClean (acceptN rcfg rlog) = true := by decide +kernel
